@@ -522,7 +522,7 @@ INAMES = ["i", "I", "a-b", "rl"]
 VALS = ["door", "@exit", "!activator", "", "x y"]
 
 
-def _build_t1(n1, n2):
+def _build_t1(n1, n2, n3):
     import srctools.vmf as V
     t = V.VMF()
     rl = t.create_ent("ambient_generic", targetname=n1, origin="16 0 0", angles="0 0 0", parentname="$t", damagefilter="flt", message="x$ty",
@@ -530,7 +530,7 @@ def _build_t1(n1, n2):
     rl.add_out(V.Output("OnTrigger", "$t", "Open"), V.Output("OnTrigger", "door", "Lock"), V.Output("OnTrigger", "@glob", "Kill"),
                V.Output("OnTrigger", "!self", "Kill"), V.Output("OnTrigger", "", "X", "$t"), V.Output("OnSpawn", "proxy", "ProxyRelay"))
     tg = t.create_ent("info_target", targetname=n2, origin="0 32 0", parentname=n1)
-    nest = t.create_ent("func_instance", targetname="nest", file="sub.vmf", origin="0 0 8", angles="0 0 0")
+    nest = t.create_ent("func_instance", targetname=n3, file="sub.vmf", origin="0 0 8", angles="0 0 0")
     nest.fixup["a"] = "door"
     nest.fixup["b"] = "@g"
     nest.fixup["c"] = "5"
@@ -566,11 +566,11 @@ def _outs(e):
     return [(o.output, o.target, o.input, o.params, o.inst_out, o.inst_in) for o in e.outputs]
 
 
-def _collapse_body(iname, val, style, order, n1, n2):
+def _collapse_body(iname, val, style, order, n1, n2, n3="nest"):
     import srctools.vmf as V
     import srctools.instancing as I
     from srctools.math import Vec, Matrix
-    t1, rl, tg, nest = _untraced(_build_t1, n1, n2)
+    t1, rl, tg, nest = _untraced(_build_t1, n1, n2, n3)
     t2, z = _untraced(_build_t2)
     f1 = I.InstanceFile(t1)
     f2 = I.InstanceFile(t2)
@@ -605,7 +605,7 @@ def _collapse_body(iname, val, style, order, n1, n2):
         check(e1["classname"] == "ambient_generic" and e2["classname"] == "info_target" and e3["classname"] == "func_instance", "classnames")
         check(e1["targetname"] == _fn(n1, nm, st), "name of entity 1", e1["targetname"], nm, st)
         check(e2["targetname"] == _fn(n2, nm, st), "name of entity 2", e2["targetname"], nm, st)
-        check(e3["targetname"] == _fn("nest", nm, st), "name of nested instance", e3["targetname"])
+        check(e3["targetname"] == _fn(n3, nm, st), "name of nested instance", e3["targetname"])
         check(e1["parentname"] == _fn(v, nm, st), "parentname = fixup_name(substituted $t)", e1["parentname"], v, nm, st)
         check(e2["parentname"] == _fn(n1, nm, st), "parentname literal", e2["parentname"])
         check(e1["damagefilter"] == _fn("flt", nm, st), "filter name", e1["damagefilter"])
@@ -639,7 +639,9 @@ def h_collapse_sym(iname: str, val: str, style: int, order: bool, n: int, m: int
     assume(len(iname) == m)
     assume(len(val) == n)
     assume(0 <= style <= 2)
-    _collapse_body(iname, val, style, order, "@r", "")
+    assume(all([(ord(c) > 0) & (ord(c) < 128) for c in iname]))      # ASCII: two slots are symbolic at once (DESIGN rule 4)
+    assume(all([(ord(c) > 0) & (ord(c) < 128) for c in val]))
+    _collapse_body(iname, val, style, order, "@r", "", "@nest")
 
 
 def h_collapse_pick(ii: int, vi: int, a: int, b: int, style: int, order: bool) -> None:
